@@ -1053,6 +1053,122 @@ fn host_buffer_readers(ctx: &Ctx) -> u64 {
     t
 }
 
+/// Host byte buffers as writers (&mut [u8], Cursor<&mut [u8]>, Vec<u8>) with room
+/// for fewer, as many or more bytes than a drain asks for, at slice, region and guest-memory level
+/// (the range crosses the region boundary): what the sink reports as accepted is the next guest
+/// bytes in order, the rest of the sink is untouched, and a second drain into the same sink
+/// continues behind the first instead of overwriting it.
+fn host_buffer_writers(ctx: &Ctx) -> u64 {
+    use std::io::Cursor;
+    let region = GuestRegionMmap::<()>::from_range(GuestAddress(BASE), CELLS, None).unwrap();
+    let memory = GuestMemoryMmap::<()>::from_ranges(&[(GuestAddress(BASE), REG_A), (GuestAddress(BASE + REG_A as u64), REG_B)]).unwrap();
+    let fill: Vec<u8> = (0..CELLS).map(label).collect();
+    unsafe { std::ptr::copy_nonoverlapping(fill.as_ptr(), region.as_ptr(), CELLS) };
+    let mut o = 0;
+    for r in memory.iter() {
+        unsafe { std::ptr::copy_nonoverlapping(fill[o..].as_ptr(), r.as_ptr(), r.len() as usize) };
+        o += r.len() as usize;
+    }
+    fn go<W: WriteVolatile>(level: usize, exact: bool, off: usize, count: usize, w: &mut W, region: &GuestRegionMmap<()>, memory: &GuestMemoryMmap<()>) -> Result<Option<usize>, String> {
+        match level {
+            0 => {
+                let vs = region.as_volatile_slice().unwrap();
+                if exact { vs.write_all_volatile_to(off, w, count).map(|_| None).map_err(|e| format!("{:?}", e)) } else { vs.write_volatile_to(off, w, count).map(Some).map_err(|e| format!("{:?}", e)) }
+            }
+            1 => {
+                let a = MemoryRegionAddress(off as u64);
+                if exact { region.write_all_volatile_to(a, w, count).map(|_| None).map_err(|e| format!("{:?}", e)) } else { region.write_volatile_to(a, w, count).map(Some).map_err(|e| format!("{:?}", e)) }
+            }
+            _ => {
+                let a = GuestAddress(BASE + off as u64);
+                if exact { memory.write_all_volatile_to(a, w, count).map(|_| None).map_err(|e| format!("{:?}", e)) } else { memory.write_volatile_to(a, w, count).map(Some).map_err(|e| format!("{:?}", e)) }
+            }
+        }
+    }
+    const SINK: u8 = 0xEE;
+    let mut t = 0u64;
+    for level in 0..3usize {
+        for kind in 0..3usize {
+            for (room, off, count) in [(0usize, 2usize, 5usize), (3, 2, 5), (7, 1, 11), (5, 2, 5), (9, 3, 5), (4, 6, 6), (1, 0, 14), (10, 6, 6), (13, 5, 8)] {
+                for exact in [true, false] {
+                    for start in [0usize, 2] {
+                        t += 1;
+                        ctx.case(true);
+                        // the sink: `start` bytes already used, `room` bytes free (vectors grow)
+                        let total = start + room;
+                        let mut backing = vec![SINK; total];
+                        let unlimited = kind >= 2;
+                        // (first result, accepted by the first, second result, accepted by the second, sink bytes)
+                        let (res, acc1, res2, acc2, sink): (Result<Option<usize>, String>, usize, Result<Option<usize>, String>, usize, Vec<u8>) = match kind {
+                            0 => {
+                                let mut w: &mut [u8] = &mut backing[start..];
+                                let a = go(level, exact, off, count, &mut w, &region, &memory);
+                                let l1 = w.len();
+                                let b = go(level, false, 0, 3, &mut w, &region, &memory);
+                                let l2 = w.len();
+                                (a, room - l1, b, l1 - l2, backing[start..].to_vec())
+                            }
+                            1 => {
+                                let mut w = Cursor::new(&mut backing[..]);
+                                w.set_position(start as u64);
+                                let a = go(level, exact, off, count, &mut w, &region, &memory);
+                                let p1 = w.position() as usize;
+                                let b = go(level, false, 0, 3, &mut w, &region, &memory);
+                                let p2 = w.position() as usize;
+                                (a, p1.saturating_sub(start), b, p2.saturating_sub(p1), backing[start..].to_vec())
+                            }
+                            _ => {
+                                let mut w = vec![SINK; start];
+                                let a = go(level, exact, off, count, &mut w, &region, &memory);
+                                let l1 = w.len();
+                                let b = go(level, false, 0, 3, &mut w, &region, &memory);
+                                let l2 = w.len();
+                                (a, l1 - start, b, l2 - l1, w[start..].to_vec())
+                            }
+                        };
+                        let cap = if unlimited { usize::MAX } else { room };
+                        let avail = CELLS - off; // guest bytes from `off` to the end of the target
+                        let want1 = count.min(avail).min(cap);
+                        let want2 = 3.min(cap - want1.min(cap));
+                        let mut want_sink: Vec<u8> = fill[off..off + want1].to_vec();
+                        want_sink.extend_from_slice(&fill[..want2]);
+                        if !unlimited {
+                            want_sink.resize(room, SINK);
+                        }
+                        let mut bad: Option<(&str, String)> = None;
+                        if acc1 != want1 || acc2 != want2 {
+                            bad = Some(("accepted-count", format!("the sink reports {} + {} bytes accepted, expected {} + {}", acc1, acc2, want1, want2)));
+                        } else if sink != want_sink {
+                            bad = Some(("sink-bytes", format!("the sink holds {} but should hold {} (guest bytes in order, the rest untouched)", hex(&sink), hex(&want_sink))));
+                        } else if exact && (res.is_ok() != (want1 == count)) {
+                            bad = Some(("result", format!("room for {} bytes, {} requested (exact): returned {:?}", if unlimited { "any number of".to_string() } else { room.to_string() }, count, res)));
+                        } else if !exact && res != Ok(Some(want1)) && !(level == 2 && want1 < count.min(avail) && res.is_err()) {
+                            // (guest memory drains each region with the all-or-error form, so a sink
+                            // that cannot take a region's part reports the sink's refusal)
+                            bad = Some(("result", format!("up to {} requested, {} fit: returned {:?}", count, want1, res)));
+                        } else if res2 != Ok(Some(want2)) && !(level == 2 && want2 < 3 && res2.is_err()) {
+                            bad = Some(("second-transfer", format!("a second drain of up to 3 bytes into a sink with room for {} more returned {:?}", cap - want1.min(cap), res2)));
+                        }
+                        if let Some((k, d)) = bad {
+                            let lv = ["slice", "region", "guest memory"][level];
+                            let wk = ["&mut [u8]", "Cursor<&mut [u8]>", "Vec<u8>"][kind];
+                            let key = format!("C14/host-buffer-writer/{}/{}/{}/{}", lv, wk, if exact { "write_all_volatile_to" } else { "write_volatile_to" }, k);
+                            let rp = if ctx.has_failed(&key) { Value::Null } else { json!({"level": lv, "writer": wk, "room": room, "already_used": start, "offset": off, "count": count, "exact": exact}) };
+                            ctx.fail(&key, &format!("offset {} count {} room {} (sink position {}): {}", off, count, room, start, d), rp);
+                        }
+                    }
+                }
+            }
+        }
+    }
+    // guest memory is only read here
+    let after: Vec<u8> = unsafe { std::slice::from_raw_parts(region.as_ptr(), CELLS) }.to_vec();
+    if after != fill {
+        ctx.fail("C14/host-buffer-writer/guest-memory-changed", "draining guest memory changed it", Value::Null);
+    }
+    t
+}
+
 pub fn run(tier: Tier, replay: Option<String>) -> i32 {
     let ctx = crate::new_ctx("C14", tier, "fault_enumeration", &replay);
     ctx.set_rule("choice-tree DFS: every call the transfer makes to the underlying stream is a choice among full / short by k / zero / EINTR (<=3 in a row) / hard error of four kinds (other, WouldBlock, BrokenPipe, TimedOut); scripts of up to max_calls scripted calls, at most `bound` non-default answers per script (all bounds 0..=B enumerated completely); streams: a scripted ReadVolatile/WriteVolatile and the real File adapter over interposed read(2)/write(2); targets: slice, region, guest memory with two adjacent regions, a hole and a third region behind it (ranges may end in the hole or behind it); a case is non-trivial when its script contains at least one non-default answer; distinct = distinct (case, script) pairs, by construction of the DFS; plus, for every case, runs of 4, 33, 64 and 1000 EINTR answers in a row (alone and after a one-byte transfer) followed by default answers; plus host byte buffers as readers (&[u8], Cursor<&[u8]>, Cursor<Vec<u8>>) holding fewer, as many or more bytes than asked, both read forms at three levels, followed by a second transfer from the same reader (what left the reader is in guest memory, in order); plus transfers of 1 MiB+2 .. 3 MiB+4101 bytes in one call at slice, region and two-region guest-memory level, all four forms, with short calls of 1, 2^20-1, 2^20, 2^20+1 and 2^21+5 bytes and with streams capped at 700001 bytes per call, and with the first, second, third or fourth stream call failing (the error surfaces, what arrived before it is in place)");
@@ -1168,6 +1284,8 @@ pub fn run(tier: Tier, replay: Option<String>) -> i32 {
     ctx.extra("long_eintr_run_scripts", json!(long_runs));
     let hb = host_buffer_readers(&ctx);
     ctx.extra("host_buffer_reader_cases", json!(hb));
+    let hw = host_buffer_writers(&ctx);
+    ctx.extra("host_buffer_writer_cases", json!(hw));
     let lt = large_transfers(&ctx, tier.thorough());
     ctx.extra("large_transfer_scripts", json!(lt));
     ctx.set_exhaustive(true);
